@@ -5,6 +5,8 @@ type nat =
 | O
 | S of nat
 
+val fst : ('a1 * 'a2) -> 'a1
+
 val snd : ('a1 * 'a2) -> 'a2
 
 val length : 'a1 list -> nat
@@ -15,6 +17,8 @@ type comparison =
 | Eq
 | Lt
 | Gt
+
+val compOpp : comparison -> comparison
 
 val add : nat -> nat -> nat
 
@@ -30,6 +34,11 @@ type positive =
 type n =
 | N0
 | Npos of positive
+
+type z =
+| Z0
+| Zpos of positive
+| Zneg of positive
 
 module Pos :
  sig
@@ -99,6 +108,8 @@ module N :
 
   val double : n -> n
 
+  val succ : n -> n
+
   val add : n -> n -> n
 
   val sub : n -> n -> n
@@ -123,6 +134,8 @@ module N :
 
   val div_eucl : n -> n -> n * n
 
+  val div : n -> n -> n
+
   val modulo : n -> n -> n
 
   val coq_lor : n -> n -> n
@@ -142,11 +155,48 @@ val nth_error : 'a1 list -> nat -> 'a1 option
 
 val concat : 'a1 list list -> 'a1 list
 
+val map : ('a1 -> 'a2) -> 'a1 list -> 'a2 list
+
+val fold_left : ('a1 -> 'a2 -> 'a1) -> 'a2 list -> 'a1 -> 'a1
+
 val firstn : nat -> 'a1 list -> 'a1 list
 
 val skipn : nat -> 'a1 list -> 'a1 list
 
 val repeat : 'a1 -> nat -> 'a1 list
+
+module Z :
+ sig
+  val double : z -> z
+
+  val succ_double : z -> z
+
+  val pred_double : z -> z
+
+  val pos_sub : positive -> positive -> z
+
+  val add : z -> z -> z
+
+  val opp : z -> z
+
+  val sub : z -> z -> z
+
+  val mul : z -> z -> z
+
+  val compare : z -> z -> comparison
+
+  val leb : z -> z -> bool
+
+  val ltb : z -> z -> bool
+
+  val eqb : z -> z -> bool
+
+  val min : z -> z -> z
+
+  val to_N : z -> n
+
+  val of_N : n -> z
+ end
 
 type state =
 | Anywhere
@@ -515,3 +565,120 @@ val strip_str_pieces : n list -> piece list option
 
 val strip_str_chunks :
   n list list -> state -> (piece list list * state) option
+
+val xterm_colors : ((n * n) * n) list
+
+val xterm_to_ansi_arms : (n * n) list
+
+val into_ansi_arms : (n * n) list
+
+val from_ansi_tbl : n list
+
+type rgb = (n * n) * n
+
+type color =
+| Ansi of n
+| Ansi256 of n
+| Rgb of rgb
+
+val redmean_distance : rgb -> rgb -> z
+
+val list_min : z list -> z option
+
+val first_index : z -> z list -> n -> n option
+
+val argmin_lowest : ('a1 -> z) -> 'a1 list -> n option
+
+val cube_level : n -> n
+
+val xterm_fixed : n -> rgb
+
+val n_range : n -> nat -> n list
+
+val xterm240 : rgb list
+
+val spec_rgb_to_ansi : rgb list -> rgb -> n option
+
+val spec_rgb_to_xterm : rgb -> n option
+
+val spec_index_rgb : rgb list -> n -> rgb option
+
+val spec_to_rgb : rgb list -> color -> rgb option
+
+val spec_to_xterm : color -> n option
+
+val spec_to_ansi : rgb list -> color -> n option
+
+val lossy_s_rgb_to_ansi : rgb list -> rgb -> n option
+
+val lossy_s_rgb_to_xterm : rgb -> n option
+
+val lossy_s_obs_index :
+  rgb list -> n -> (rgb option * n option) * ((rgb option * n option) * n
+  option)
+
+val lossy_s_obs_ansi :
+  rgb list -> n -> ((rgb option * rgb option) * rgb option) * ((rgb
+  option * n option) * n option)
+
+val lossy_s_obs_rgb : rgb list -> rgb -> (rgb option * n option) * n option
+
+val i32 : z -> z option
+
+val i32_as_u32 : z -> n
+
+val distance : rgb -> rgb -> n option
+
+val scan : rgb -> rgb list -> n -> n -> n -> (n * n) option
+
+val find_best : rgb -> rgb list -> n -> n option
+
+val assoc : n -> (n * n) list -> n option
+
+val into_ansi : n -> n option
+
+val from_ansi : n -> n option
+
+val get_ansi256_ref : rgb list -> n -> rgb option
+
+val palette_get : rgb list -> n -> rgb option
+
+val palette_index : rgb list -> n -> rgb option
+
+val rgb_from_ansi : rgb list -> n -> rgb option
+
+val rgb_from_index : rgb list -> n -> rgb option option
+
+val find_match : rgb list -> rgb -> n option
+
+val find_xterm_match : rgb -> n option
+
+val rgb_to_xterm : rgb -> n option
+
+val rgb_to_ansi : rgb -> rgb list -> n option
+
+val ansi_to_rgb : n -> rgb list -> rgb option
+
+val xterm_to_rgb : n -> rgb list -> rgb option
+
+val xterm_to_ansi : n -> rgb list -> n option
+
+val color_to_rgb : color -> rgb list -> rgb option
+
+val color_to_xterm : color -> n option
+
+val color_to_ansi : color -> rgb list -> n option
+
+val lossy_m_rgb_to_ansi : rgb list -> rgb -> n option
+
+val lossy_m_rgb_to_xterm : rgb -> n option
+
+val lossy_m_obs_index :
+  rgb list -> n -> (rgb option * n option) * ((rgb option * n option) * n
+  option)
+
+val lossy_m_obs_ansi :
+  rgb list -> n -> ((rgb option * rgb option) * rgb option) * ((rgb
+  option * n option) * n option)
+
+val lossy_m_obs_rgb : rgb list -> rgb -> (rgb option * n option) * n option
